@@ -676,3 +676,46 @@ CHECKS["C12"] = _c12_c13
 CHECKS["C13"] = _c12_c13
 for _p in ("C12", "C13"):
     META[_p]["text"] += " At design level AsyncFetch.tla is model checked with cancellation fired at any quiescent point, all in-flight requests dropped, and a second solve on the same solver: no deadlock and no duplicate call (with CleanupOnDrop = FALSE, the code as shipped, TLC reproduces the deadlock of the second solve; MC_AsyncFetch_asshipped.cfg)."
+
+
+def _c19(prop, tier, seed, t0):
+    import subprocess
+    ids = "0,1,127,128,300" if tier == "quick" else "0,1,2,126,127,128,129,255,256,1000"
+    rep = check.graph_replay(prop, "mapping", "MC_Mapping.tla", f"MC_Mapping_{tier}.cfg", "mapping", ["--ids", ids],
+                             workers=8)
+    # implementation -> spec: random histories with sparse / large ids followed through Mapping.tla
+    exe = vlib.build_harness("release")
+    wd = os.path.join(vlib.WORK, prop)
+    os.makedirs(wd, exist_ok=True)
+    nh = 100 if tier == "quick" else 400
+    traces = []
+    for i in range(4 if tier == "quick" else 12):
+        t = os.path.join(wd, f"hist{i}.trace")
+        subprocess.run([exe, "mapping-histories", "--n", str(nh // 4), "--seed", str(seed * 100 + i), "--out", t], check=True)
+        traces.append(t)
+    import concurrent.futures as cf
+    fails, events, hist, sparse = [], 0, 0, 0
+    with cf.ThreadPoolExecutor(max_workers=8) as ex:
+        for f, covers, begins, st in ex.map(lambda t: vlib.validate_trace(t, "Trace_Mapping.tla", "Trace_Mapping.cfg", tag=prop), traces):
+            fails += f
+            events += st["states"]
+            hist += len(begins)
+            sparse += len(covers)
+    extra = {"random_histories_validated": hist, "history_events": events, "events_with_3_sparse_entries": sparse,
+             "ids": ids}
+    rc = check.finish_graph_check(prop, tier, seed, t0, [rep], extra)
+    if fails:
+        f0 = vlib.first_fail_per_run(fails)[0]
+        path = vlib.write_replay(prop, dict(f0, trace=None), {"history_trace": f0["trace"]})
+        print(f"VIOLATION property={prop} replay={path}")
+        vlib.log(f"  rule={f0['rule']} history={f0['id']} info={f0['info'][:300]}")
+        ev = json.load(open(os.path.join(vlib.EVIDENCE, f"{prop}.json")))
+        ev["violations"] = ev.get("violations", 0) + len(fails)
+        json.dump(ev, open(os.path.join(vlib.EVIDENCE, f"{prop}.json"), "w"), indent=1)
+        rc = 1
+    return rc
+
+
+CHECKS["C19"] = _c19
+META["C19"]["text"] += " In the other direction, random histories (20-60 operations each, ids dense, around the 128-slot chunk boundaries and up to 5000) are recorded from the real Mapping with the full observation after every operation and followed through Mapping.tla by TLC (Trace_Mapping.tla)."
+META["C19"]["technique"] = "TLC state-graph generation + replay of every transition into the real Mapping; TLA+ trace validation of random histories"
